@@ -106,7 +106,12 @@ def call_spec_fn(self, name, e, st):
             s.env[n] = Val(t, z)
             s.env["$q_" + n] = Val(t, z)
         npc = len(st.pc)
-        body, s2 = self.ev1(lam.body, s)
+        saved_env = getattr(self, "_cur_spec_env", ())
+        self._cur_spec_env = tuple(s.env)
+        try:
+            body, s2 = self.ev1(lam.body, s)
+        finally:
+            self._cur_spec_env = saved_env
         bz = self.truth(body, s2)
         extra = list(s2.pc[npc:])
         del st.pc[npc:]
@@ -530,6 +535,42 @@ def call_builtin(self, name, args, kwargs, st, node):
     if name == "reversed":
         v = self.view_of(a[0], st)
         yield View(v.length, lambda i: v.at(v.length - 1 - i), v.elt_t), st
+        return
+    if name in ("copy", "copy.copy"):
+        x = a[0]
+        if isinstance(x, Val) and isinstance(x.t, Obj):
+            new = Val(x.t, self.new_ref(st))
+            self.unshared(st, new)
+            # shallow copy: same field values
+            for k in self.all_keys_of(x.t):
+                arr = self.heap.get(st, k)
+                self.heap.set(st, k, z3.Store(arr, new.z, z3.Select(arr, x.z)))
+            yield new, st
+            return
+        if self.lenient:
+            yield self.unknown_call(args, kwargs, st, "copy of an untracked value"), st
+            return
+        raise Untranslatable("copy of a non-object")
+    if name == "map" and isinstance(args[0], PyConst) and args[0].v in (("builtin", "copy"), ("dotted", "copy.copy")):
+        # map(copy, seq): len(seq) fresh objects (bulk allocation); field values of the copies are not tracked
+        src = self.view_of(a[1], st)
+        et = src.elt_t
+        if not isinstance(et, Obj):
+            probe = src.at(fresh("p", z3.IntSort()))
+            et = probe.t if isinstance(probe, Val) else None
+        if not isinstance(et, Obj):
+            raise Untranslatable("map(copy, ...) over non-objects")
+        base = st.next_ref
+        n = src.length
+        st.assume(n >= 0)
+        st.next_ref = st.next_ref + n
+        for k in self.all_keys_of(et):       # the copies' fields: unknown (havoc above the old allocation bound)
+            arr = self.heap.get(st, k)
+            new_arr = fresh("hv", arr.sort())
+            r = fresh("r", z3.IntSort())
+            st.assume(z3.ForAll([r], z3.Implies(r < base, z3.Select(new_arr, r) == z3.Select(arr, r))))
+            self.heap.set(st, k, new_arr)
+        yield View(n, lambda i, base=base: Val(et, base + i), et, distinct=True), st
         return
     if name == "map":
         fn = args[0]
